@@ -5,6 +5,7 @@ go 1.22
 require (
 	flamingo.me/flamingo/v3 v3.10.1
 	flamingo.me/pugtemplate v0.0.0
+	golang.org/x/net v0.27.0
 )
 
 require (
@@ -45,7 +46,6 @@ require (
 	github.com/uber/jaeger-client-go v2.25.0+incompatible // indirect
 	github.com/zemirco/memorystore v0.0.0-20160308183530-ecd57e5134f6 // indirect
 	go.opencensus.io v0.24.0 // indirect
-	golang.org/x/net v0.27.0 // indirect
 	golang.org/x/sync v0.8.0 // indirect
 	golang.org/x/sys v0.22.0 // indirect
 	golang.org/x/text v0.16.0 // indirect
